@@ -705,6 +705,7 @@ func main() {
 		impConstStage(r)
 		sockStage()
 		slowWriterStage()
+		readdirStage()
 		hostStage(*hx.Work)
 		emStage(r)
 		per, nops := 200, 40
